@@ -16,6 +16,8 @@ def io_cfg(rng, faults=True):
         cfg["dtype_unknown"] = rng.chance(0.4)
         cfg["short_reads"] = rng.pick([0, 0, 1, 2, 3, 7, 64, 4096])
         cfg["fill"] = rng.pick([0xA5, 0x00, 0xFF, 0x5B, 0x20, 0x0A, 0x23])
+        # errno is unspecified after a successful libc call and arbitrary when the caller enters the library
+        cfg["errno_noise"] = rng.chance(0.5)
     return cfg
 
 
